@@ -915,6 +915,14 @@ func runC04(w *W) {
 		c04Statement(w, idx, s, desc)
 	}
 
+	// (10b) the structured spaces of fuzzspace2.go (what parses: scripts, WINDOW definitions, statement × tail subsets, odd calls)
+	fuzzSpace2(w, func(input, desc string) {
+		if desc == "recovery" || desc == "tails" { // not syntactically valid in general: C01–C03's business
+			return
+		}
+		run(input, "fs2-"+desc)
+	})
+
 	// (11) leaf substitution: the statement skeletons of the corpus (every statement kind and clause the goldens know)
 	// with their string / number / identifier leaves replaced by difficult ones — line breaks, tabs, quotes and
 	// backslashes inside strings, huge and negative-looking numbers, quoted identifiers with spaces, dots and '%'.
